@@ -5,6 +5,6 @@ package callback
 
 import "git.sr.ht/~adrian-blx/psa-dhcp/lib/libif"
 
-func VerifDumpScriptConf(c *libif.Ifconfig) []string { return dumpScriptConf(c) }
-func VerifEnvEntry(key, val string) string             { return envEntry(key, val) }
-func VerifParseScriptArgs(s string) ([]string, error)  { return parseScriptArgs(s) }
+func VerifDumpScriptConf(c *libif.Ifconfig) []string  { return dumpScriptConf(c) }
+func VerifEnvEntry(key, val string) string            { return envEntry(key, val) }
+func VerifParseScriptArgs(s string) ([]string, error) { return parseScriptArgs(s) }
